@@ -9,7 +9,7 @@
      hmac <alg> seed=<s> klen=<k> mode=init|single <n1> ...   (mode=single: one call of psHmac with sum of n)
      hkdf <alg> seed=<s> salt=<n> ikm=<n> info=<n> out=<n>
      pbkdf2 seed=<s> plen=<n> slen=<n> rounds=<n> klen=<n>
-     gcm  seed=<s> klen=16|32 aad=<n> al=<a> inplace=0|1 dir=enc|dec <n1> <n2> ...   streaming seal / tagless open
+     gcm  seed=<s> klen=16|32 aad=<n> al=<a> inplace=0|1 dir=enc|dec [reuse=<taglen>] <n1> <n2> ...   streaming seal / tagless open
      gcmopen seed=<s> klen= aad= pt= taglen=<t> api=1|2 tamper=none|ct|tag|nonce|aad|key bit=<b>
      chacha seed=<s> aad=<n> pt=<n> al= inplace= tamper=... bit=<b> api=att|det
      cbc  seed=<s> klen=16|32 dir=enc|dec inplace=0|1 al=<a> <n1> <n2> ...   (n multiples of 16)
@@ -245,6 +245,15 @@ static void cmd_gcm(char **tok, int ntok)
     ref_gcm_seal(key, (int) klen, iv, aad, aadl, pt, total, rct, rtag);
     memcpy(in + al, enc ? pt : rct, total);
     rc = psAesInitGCM(&g, key, (uint8_t) klen);
+    if (opti(tok, ntok, "reuse", 0) > 0)
+    {   /* the context has already protected another message, whose tag was fetched with `reuse` bytes: psAesReadyGCM
+           must start the new message from a clean state (a context is initialised once per key, readied per message) */
+        unsigned char iv0[16], t0[16], b0[40];
+        fill(iv0, seed + 77, 0, 12); fill(b0, seed + 78, 0, 21);
+        psAesReadyGCM(&g, iv0, aad, (psSize_t) aadl);
+        psAesEncryptGCM(&g, b0, b0, 21);
+        psAesGetGCMTag(&g, (uint8_t) opti(tok, ntok, "reuse", 16), t0);
+    }
     psAesReadyGCM(&g, iv, aad, (psSize_t) aadl);
     fprintf(g_tr, "{\"i\":%ld,\"k\":\"gcm\",\"op\":\"ready\",\"dir\":\"%s\",\"aad\":%ld,\"n\":0,\"ibc\":%u,\"obc\":%u,\"abits\":%u,\"cbits\":%u,\"rc\":%d,\"ok\":1}\n", g_i++, dir, aadl,
         g.InputBufferCount, g.OutputBufferCount, g.ProcessedBitCount[0], g.ProcessedBitCount[2], rc);
